@@ -209,3 +209,40 @@ func init() {
 		note: "partial: on Config.ParseTemplates the data handed to every template execution is proved to carry the documented bindings (Mock by exportedness of the interface name, InterfaceName/File/Dir, SrcPackageName/Path, StructName, Template, ConfigDir), the function library is attached before parsing, the result is a fixpoint (err == nil implies every one of dir/filename/pkgname/structname/template-schema renders to itself, by a ghost-visited-set invariant over the attribute map), and evaluation terminates (variant 21 - i) with a non-nil error, not a truncated value, when the 20-pass cap is hit. FindConfig and the documented meaning of InterfaceDirRelative/ConfigDir in the search case are not covered.",
 	})
 }
+
+var genTrusted = []string{
+	"go/types accessors are pure functions of their receiver (one uninterpreted function per static receiver type); axioms listed in the contract files: Func.Type() is a *Signature, Tuple.At/TypeParamList.At/Interface.Method are non-nil in range, IsInterface(T) implies Underlying(T) is *Interface, TypeParam.Constraint() has interface underlying type, NewParam(...).Type() is its argument",
+	"text/template rendering (the template text itself), types.TypeString, goimports/gofmt are outside the check",
+	"packages.Load for replace-type targets is opaque",
+}
+
+func init() {
+	register(&propInfo{
+		id: "C12", patterns: []string{"./internal", "./template"},
+		trusted: append([]string{
+			"gojsonschema is an uninterpreted pure library: valid(schema, td) means Validate returns no error and Valid(); NewSchema returns a schema whenever it returns no error (axiom)",
+			"download(url) yields content(url), a value assumed stable during one run (trusted contract: file read / HTTP GET)",
+		}, genTrusted...),
+		note: "partial: validateSchema (file-level data and every interface, iff), TemplateData.VerifyJSONSchema, getTemplate (built-in schema for built-in templates; for remote templates the schema at template-schema exactly when require-template-schema-exists; unknown names and failed downloads are errors; cache entries really hold what their URLs yield), RemoteTemplate.Template/Schema (at most one download, an error is not cached as success) and the order of stages in Generate (validation before execution and formatting, nothing returned on failure) are proved. JSON-schema semantics are gojsonschema's.",
+	})
+	register(&propInfo{
+		id: "C13", patterns: []string{"./internal", "./template", "./config"},
+		trusted: genTrusted,
+		note: "partial: GetReplacement is the two-level map lookup; methodData looks every parameter and result up under exactly (package path, name) of its own named or alias type and hands that replacement to AddVar for that variable only; AddVar with a replacement uses the type found in the loaded package and records only the replacement's package for the variable, without one it uses the variable's type and the imports of that type; inheritance of replace-type across levels is mergeConfigs' typed-map postcondition (C08). Rendering and compilation of the result are not covered.",
+	})
+	register(&propInfo{
+		id: "C14", patterns: []string{"./internal", "./template"},
+		trusted: genTrusted,
+		note: "lemma-level: methodData (one Method with the method's name; parameters and results in signature order, bound to the signature's variables, variadic flag only on the last parameter of a variadic signature), typeParams (one entry per type parameter, in order, with its constraint), Generate (one Method per method of the looked-up interface, in order), ResolveVariableNameCollisions (names pairwise distinct and none equal to a name visible before: qualifiers, type strings), varName (generated names are not keywords, predeclared types or template identifiers), AddVar (type string reserved as a name). That the offered strings denote the same Go types (types.TypeString with the registry's qualifiers) is not decided.",
+	})
+	register(&propInfo{
+		id: "C02", patterns: []string{"./internal", "./template"},
+		trusted: genTrusted,
+		note: "lemma-level: Registry.LookupInterface returns the complete interface of the looked-up object and errors on missing or non-interface objects; Generate builds one Method per method of that interface, in order, each from iface.Method(i); methodData reproduces parameter and result counts, order, variables and variadic-ness; ParsePackages never yields function-local types, so no interface is returned twice for that reason. That the templates render what the data model says, and assignability of the result, are the Go type checker's domain and not decided.",
+	})
+	register(&propInfo{
+		id: "C01", patterns: []string{"./internal", "./template"},
+		trusted: genTrusted,
+		note: "lemma-level (necessary mechanisms only): registry bijection between import paths and qualifiers (C15); import bookkeeping of a variable (MethodScope.addImport, populateImports*: invariants and monotonicity, a named type's own package is recorded); variable names avoid qualifiers, type strings, keywords and template identifiers (C14); findPkgPath reads the module path with the go.mod parser, creates only the output directory and terminates; NewTemplateGenerator's in-package test (same package name and same directory); format dispatches on the three documented formatters and errors otherwise. Whether the rendered text type-checks is not decided by contracts.",
+	})
+}
